@@ -159,12 +159,13 @@ PROPS = {
     },
     "C13": {
         "obligation_files": ["Properties/C13.v"],
-        "model_files": ['Model/BundleM.v', 'Model/BundleOps.v', 'Corr/Transport.v', 'Proofs/CacheProofs.v', 'Corr/RunB.v'],
-        "rule": "stream bundle-hist: headers assembled in random order from a pool of valid, attenuated, undischarged (one and two third parties), wrongly-keyed, unknown-key-id and foreign-location permission tokens, genuine / extraneous / wrongly-signed discharges, non-macaroon and malformed entries (incl. empty elements); histories of 4-12 operations from "
+        "model_files": ['Model/BundleM.v', 'Model/BundleOps.v', 'Model/BundleHeap.v', 'Corr/Transport.v', 'Proofs/CacheProofs.v', 'Corr/RunB.v'],
+        "rule": "stream bundle-heap (object sharing, model Model/BundleHeap.v, case kind KBunH): scenarios that mutate through aliases - Select, then Attenuate / Verify / AddTokens / Filter / Discharge on the parent and on the derived bundle in every order (all 5x5 pairs, both sides), verify-select-attenuate, select-verify-one-side, nested derivations with Clone in between, free scenarios - observing Validate (4 requests), Header, Len and Count(verified) on EVERY live bundle after EVERY step; hard oracle on every scenario: every decision of a bundle is the decision of its own Header() parsed and verified afresh (with every discharge the scenario has seen); four scripted F15 regression cases; "
+                "stream bundle-hist: headers assembled in random order from a pool of valid, attenuated, undischarged (one and two third parties), wrongly-keyed, unknown-key-id and foreign-location permission tokens, genuine / extraneous / wrongly-signed discharges, non-macaroon and malformed entries (incl. empty elements); histories of 4-12 operations from "
                 "{ParseBundle, ParseBundleWithFilter(KeepAll), AddTokens, Select/Filter with 8 predicates, Verify with a KeyResolver, Validate (3 requests), Header, Len, Count (predicate and non-predicate filters), Attenuate (3 caveat lists incl. a duplicate), Discharge for either third party with the right or a wrong key, Clone, UndischargedThirdPartyTickets, Select/Filter/Count/Any with the non-predicate filters IsMissingDischarge, AllowsAccess (flyio.IsForOrg), WithDischarges (nested), IsEmpty, Error, VerificationCache.Purge}, plus scripted openings (all-or-nothing Discharge, failing Attenuate, one token for several accesses, the bundle of an empty header and its clone); "
                 "the model's verification / clearing / attenuation tables are filled by DIRECT calls (macaroon.Decode+Verify with all discharges of the bundle, CaveatSet.Validate, Decode+Add+String) outside the bundle; implementation-side oracle: after Verify the bundle clears a request iff one of the returned verified sets clears it, and Header() = 'FlyV1 ' + tokens joined in order; "
                 "non-trivial = at least one direct verification was recorded",
-        "assumptions": ["derived bundles (Select) share token objects with their parent by design; scenarios only read derived bundles (object sharing is not modelled)",
+        "assumptions": ["derived bundles (Select) share token objects with their parent by design: modelled by the heap model (cells for token objects and verification wrappers); the value model's scenarios only read derived bundles and the refinement theorem says when the two agree; locks are C15",
                         "the tokeniser (header string -> typed entries) is C19's model; here entries arrive already typed by the real tokeniser",
                         "map iteration order over third-party locations inside Verify is arbitrary in Go; the model uses caveat order (irrelevant to the result by the C04 theorems)"],
     },
